@@ -268,7 +268,9 @@ func buildC07(tier string) *core.Plan {
 	reqBases := gen.Filter(gen.Trees(gen.Alphabet{Scalars: []any{1, "x", "$required"}, Keys: []string{"a", "b"}, MaxList: 2, MaxMap: 2}, nb+1),
 		func(v any) bool { return (gen.IsMap(v) || gen.IsList(v)) && c07HasValue(v, "$required") })
 	required := core.Space{Name: "required-chains", N: int64(len(reqBases)),
-		Desc: func(i int64) any { return map[string]any{"lower": reqBases[i], "uppers": "every subset of the $required map-value positions overridden with 7"} },
+		Desc: func(i int64) any {
+			return map[string]any{"lower": reqBases[i], "uppers": "every subset of the $required map-value positions overridden with 7"}
+		},
 		Run: func(c *core.Ctx, i int64) {
 			lower := reqBases[i]
 			var pos [][]any // $required positions reachable through maps only
@@ -365,18 +367,26 @@ func buildC07(tier string) *core.Plan {
 	}
 	mdCases := []mdCase{
 		{"map-over-scalar", map[string]any{"$match": map[string]any{}, "s": map[string]any{"n": "$required", "k": 1}},
-			func(id int) map[string]any { return map[string]any{"$match": map[string]any{"id": id}, "s": map[string]any{"n": 7}} }},
+			func(id int) map[string]any {
+				return map[string]any{"$match": map[string]any{"id": id}, "s": map[string]any{"n": 7}}
+			}},
 		{"appended-list-entry", map[string]any{"$match": map[string]any{}, "l": []any{map[string]any{"n": "$required", "k": 1}}},
 			func(id int) map[string]any {
 				return map[string]any{"$match": map[string]any{"id": id}, "l": []any{map[string]any{"$match": map[string]any{"k": 1}, "n": 7}}}
 			}},
 		{"new-key", map[string]any{"$match": map[string]any{}, "fresh": map[string]any{"n": "$required"}},
-			func(id int) map[string]any { return map[string]any{"$match": map[string]any{"id": id}, "fresh": map[string]any{"n": 7}} }},
+			func(id int) map[string]any {
+				return map[string]any{"$match": map[string]any{"id": id}, "fresh": map[string]any{"n": 7}}
+			}},
 		{"replace-true", map[string]any{"$match": map[string]any{}, "m": map[string]any{"$replace": true, "n": "$required"}},
-			func(id int) map[string]any { return map[string]any{"$match": map[string]any{"id": id}, "m": map[string]any{"n": 7}} }},
+			func(id int) map[string]any {
+				return map[string]any{"$match": map[string]any{"id": id}, "m": map[string]any{"n": 7}}
+			}},
 	}
 	multiDoc := core.Space{Name: "required-across-documents", N: int64(len(mdCases) * 4), Chunk: 1,
-		Desc: func(i int64) any { return map[string]any{"case": mdCases[i/4].name, "overridden_documents_mask": i % 4} },
+		Desc: func(i int64) any {
+			return map[string]any{"case": mdCases[i/4].name, "overridden_documents_mask": i % 4}
+		},
 		Run: func(c *core.Ctx, i int64) {
 			mc := mdCases[i/4]
 			mask := int(i % 4)
